@@ -99,6 +99,10 @@ def cases(shard, rnd):
         for b in mp.bytes:
             if b:
                 yield {'kind': 'body', 'body': b, 'ch': gf.rchannel(rnd)}
+        # buffers whose len() is not their byte count / that are not flat
+        for buf in gv.buffer_bodies(rnd):
+            yield {'kind': 'body', 'body': buf, 'ch': gf.rchannel(rnd),
+                   'buffer': True}
         octs = [o for o in mp.base_ints if 0 <= o <= 255][:24]
         for a in octs:
             for b in octs:
@@ -427,7 +431,9 @@ def _run(case, rec, kind, legacy, body, commands, encode, header, heartbeat):
             rec.count('lib_refused')
             rec.count('lib_refused:' + str(m.exc_type))
             return
-        rec.nt(canon.digest_bytes(case['body']) ^ case['ch'])
+        rec.nt(canon.digest_bytes(case['body'] if not case.get('buffer')
+                                  else memoryview(case['body']).tobytes())
+               ^ case['ch'])
         rec.seen('kinds', 'body')
         if m.value != refcodec.enc_body(case['body'], case['ch']):
             rec.violation('body-bytes', 'content body frame differs from '
